@@ -68,9 +68,9 @@ where
     // for now, write this as a type alias; we may want to change this to a newtype
     // in the future
     if let Some(comment) = comment {
-        comment.split('\n').for_each(|line| {
-            writeln!(writer, "/// {line}").unwrap();
-        });
+        for line in comment.split('\n') {
+            writeln!(writer, "/// {line}")?;
+        }
     }
 
     write_type_alias(
@@ -140,9 +140,9 @@ where
     let rust_name = xml_name_to_rust_name(xml_name);
 
     if let Some(comment) = comment {
-        comment.split('\n').for_each(|line| {
-            writeln!(writer, "/// {line}").unwrap();
-        });
+        for line in comment.split('\n') {
+            writeln!(writer, "/// {line}")?;
+        }
     }
 
     writeln!(writer, "#[derive(Debug, Default, YaSerialize, YaDeserialize)]")?;
